@@ -41,6 +41,7 @@ type catchEvent struct {
 	activated       atomic.Bool
 	awaitingActions []chan IAction
 	once            sync.Once
+	running         atomic.Bool
 	satisfier       *logic.CatchEventSatisfier
 }
 
@@ -97,6 +98,13 @@ func (evt *catchEvent) run(ctx context.Context, sender tracing.ISenderHandle) {
 
 func (evt *catchEvent) ConsumeEvent(ev event.IEvent) (result event.ConsumptionResult, err error) {
 	verifhook.Point("catch.consume")
+	if !evt.running.Load() {
+		// No token has reached this node yet: its event loop is not running,
+		// nothing listens and the event is dropped. Queueing it would fill the
+		// inbox after a few events and block the caller forever.
+		result = event.Consumed
+		return
+	}
 	evt.mch <- processEventMessage{event: ev}
 	result = event.Consumed
 	return
@@ -105,6 +113,7 @@ func (evt *catchEvent) ConsumeEvent(ev event.IEvent) (result event.ConsumptionRe
 func (evt *catchEvent) NextAction(ctx context.Context, flow Flow) chan IAction {
 	evt.once.Do(func() {
 		sender := evt.tracer.RegisterSender()
+		evt.running.Store(true)
 		go evt.run(ctx, sender)
 	})
 
